@@ -201,20 +201,20 @@ func c10Extra(w *harness.World, cr *concRun) {
 
 func c10Drivers() []concParams {
 	return []concParams{
-		{Name: "2-writers", Cfg: "roomy/bytewise", Clients: [][]string{{"put:a"}, {"put:b"}}, QB: 3, TB: 4, Expect: "noerr"},
-		{Name: "3-writers", Cfg: "roomy/bytewise", Clients: [][]string{{"put:a"}, {"put:b"}, {"put:a"}}, QB: 3, TB: 4, Expect: "noerr"},
+		{Name: "2-writers", Cfg: "roomy/bytewise", Clients: [][]string{{"put:a"}, {"put:b"}}, QB: 3, TB: 4, Expect: "noerr", SQ: 1, ST: 1},
+		{Name: "3-writers", Cfg: "roomy/bytewise", Clients: [][]string{{"put:a"}, {"put:b"}, {"put:a"}}, QB: 3, TB: 4, Expect: "noerr", SQ: 1, ST: 1},
 		{Name: "3-writers-2ops", Cfg: "roomy/bytewise", Clients: [][]string{{"put:a", "put:b"}, {"put:b", "w:+a,+b"}, {"del:a"}}, QB: 2, TB: 3, Expect: "noerr"},
-		{Name: "overflow-handoff", Cfg: "wide/bytewise", Clients: [][]string{{"put:a"}, {"putL:b"}, {"put:a"}}, QB: 2, TB: 3, Expect: "noerr"},
-		{Name: "no-merge", Cfg: "roomy/bytewise", NoMerge: true, Clients: [][]string{{"put:a"}, {"put:b"}, {"put:a"}}, QB: 3, TB: 4, Expect: "noerr"},
-		{Name: "writers-vs-close", Cfg: "roomy/bytewise", Clients: [][]string{{"put:a"}, {"put:b"}, {"close"}}, QB: 3, TB: 4},
+		{Name: "overflow-handoff", Cfg: "wide/bytewise", Clients: [][]string{{"put:a"}, {"putL:b"}, {"put:a"}}, QB: 2, TB: 3, Expect: "noerr", SQ: 1, ST: 1},
+		{Name: "no-merge", Cfg: "roomy/bytewise", NoMerge: true, Clients: [][]string{{"put:a"}, {"put:b"}, {"put:a"}}, QB: 3, TB: 4, Expect: "noerr", SQ: 1, ST: 1},
+		{Name: "writers-vs-close", Cfg: "roomy/bytewise", Clients: [][]string{{"put:a"}, {"put:b"}, {"close"}}, QB: 3, TB: 4, SQ: 1, ST: 1},
 		{Name: "overflow-handoff-vs-close", Cfg: "wide/bytewise", Clients: [][]string{{"put:a"}, {"putL:b"}, {"put:a"}, {"close"}}, QB: 2, TB: 3},
 		{Name: "overflow-handoff-vs-readonly", Cfg: "wide/bytewise", Clients: [][]string{{"put:a"}, {"putL:b"}, {"put:a"}, {"ro"}}, QB: 2, TB: 3},
-		{Name: "merged-group-fills-buffer", Cfg: "wide/bytewise", Pre: []string{"putM:a", "putE:b"}, Clients: [][]string{{"put:a"}, {"put:b"}, {"put:a"}}, QB: 2, TB: 3, Expect: "noerr"},
+		{Name: "merged-group-fills-buffer", Cfg: "wide/bytewise", Pre: []string{"putM:a", "putE:b"}, Clients: [][]string{{"put:a"}, {"put:b"}, {"put:a"}}, QB: 2, TB: 3, Expect: "noerr", SQ: 1, ST: 1},
 		{Name: "merged-group-fills-buffer-vs-close", Cfg: "wide/bytewise", Pre: []string{"putM:a", "putE:b"}, Clients: [][]string{{"put:a"}, {"put:b"}, {"close"}}, QB: 2, TB: 3},
-		{Name: "writers-vs-tr", Cfg: "roomy/bytewise", Clients: [][]string{{"put:a"}, {"put:b"}, {"tr:+a,+b"}}, QB: 2, TB: 2, Expect: "noerr"},
+		{Name: "writers-vs-tr", Cfg: "roomy/bytewise", Clients: [][]string{{"put:a"}, {"put:b"}, {"tr:+a,+b"}}, QB: 2, TB: 2, Expect: "noerr", SQ: 1, ST: 1},
 		{Name: "writers-vs-compact", Cfg: "roomy/bytewise", Pre: []string{"put:a"}, Clients: [][]string{{"put:a"}, {"put:b"}, {"cr"}}, QB: 2, TB: 3, Expect: "noerr"},
 		// CompactRange holds the write lock across its buffer rotation: a writer must not get in between
-		{Name: "compactrange-vs-writer", Cfg: "roomy/bytewise", Pre: []string{"put:a"}, Clients: [][]string{{"cr"}, {"put:b"}}, QB: 2, TB: 3, Expect: "noerr"},
+		{Name: "compactrange-vs-writer", Cfg: "roomy/bytewise", Pre: []string{"put:a"}, Clients: [][]string{{"cr"}, {"put:b"}}, QB: 2, TB: 3, Expect: "noerr", SQ: 1, ST: 1},
 		{Name: "compactrange-vs-writer-flushy", Cfg: "flushy/bytewise", Pre: []string{"put:a"}, Clients: [][]string{{"cr"}, {"put:b"}}, QB: 2, TB: 3, Expect: "noerr"},
 		{Name: "writers-vs-readonly", Cfg: "roomy/bytewise", Clients: [][]string{{"put:a"}, {"put:b"}, {"ro"}}, QB: 3, TB: 4},
 		// a storage fault in the middle of the protocol: the group's journal write or sync fails,
@@ -228,7 +228,7 @@ func c10Drivers() []concParams {
 		{Name: "overflow-handoff-4-writers", Cfg: "wide/bytewise", Clients: [][]string{{"put:a"}, {"put:b"}, {"putL:b"}, {"w:+a,+b", "get:a"}}, QB: 2, TB: 3, Expect: "noerr"},
 		// writers queue up behind a transaction that holds the write lock until all of them are
 		// parked: when it commits, one becomes leader and finds the others waiting to be merged
-		{Name: "queue-behind-transaction", Cfg: "roomy/bytewise", Clients: [][]string{{"trq:+z"}, {"put:a"}, {"put:b"}, {"w:+a,+b", "get:a"}}, QB: 2, TB: 3, WQ: 4, WT: 5, Expect: "noerr"},
+		{Name: "queue-behind-transaction", Cfg: "roomy/bytewise", Clients: [][]string{{"trq:+z"}, {"put:a"}, {"put:b"}, {"w:+a,+b", "get:a"}}, QB: 2, TB: 3, WQ: 4, WT: 5, Expect: "noerr", SQ: 1, ST: 1},
 		// only batches in the queue: the leader is a Write whose own (caller-owned) batch heads the group
 		{Name: "queue-behind-transaction-batches", Cfg: "roomy/bytewise", Clients: [][]string{{"trq:+z"}, {"w:+a,+b"}, {"w:+b,-a"}, {"w:+a", "get:a"}}, QB: 2, TB: 3, Expect: "noerr"},
 		{Name: "queue-behind-transaction-overflow", Cfg: "wide/bytewise", Clients: [][]string{{"trq:+z"}, {"put:a"}, {"put:b"}, {"putL:b"}, {"w:+a,+b", "get:a"}}, QB: 2, TB: 2, WT: 4, Expect: "noerr"},
